@@ -382,16 +382,14 @@ theorem C08_swap_bytes_iff_pagesize : C08_swap_bytes_Full ↔ swapPages = true :
   · intro hp w hw
     exact C08_swap_refines w hw (Or.inl hp)
 
-/- AFTER fixes/C08-swap-pagesize.diff HAS LANDED in /repo (fact `swapPages` becomes true), switch
-   these two on (they build on the repaired tree, validated on a scratch worktree) and run
-   `./check C08 --rebaseline`:
+/- fixes/C08-swap-pagesize.diff has landed as /repo 700d6e8 (fact `swapPages` = true): obligation + the
+   full-strength statement for the code as it is -/
 
 /-- obligation: swap_memory() multiplies both page counters by PAGESIZE -/
 theorem cfg_swap_pages : swapPages = true := by decide
 
 /-- swapped-in/out are BYTES on every kernel, whatever its page size -/
 theorem C08_swap_bytes_full : C08_swap_bytes_Full := C08_swap_bytes_iff_pagesize.mpr cfg_swap_pages
--/
 
 section
 variable (w : SwapWorld) (hw : w.WF) (o : SwapOut) (hrun : w.run = .ok o)
